@@ -68,7 +68,8 @@ def strHex (s : String) : String := hexOf s.toUTF8.toList
 def step (_ : Unit) (toks : List String) : Unit × String :=
   ((), match toks with
   | ["consts"] =>
-    s!"ok base={hexOf baseDir} max={maxDirPathSize} local={strHex localRESrc} remote={strHex remoteRESrc} suffix={strHex suffixRESrc}"
+    -- the leaf-name expressions are compared by behaviour in the engine (not by their source text)
+    s!"ok base={hexOf baseDir} max={maxDirPathSize}"
   | ["path", pl] =>
     match parsePayload pl with
     | some p => s!"ok abs={if isAbs p then 1 else 0} clean={showBytes (clean p)} dir={showBytes (dir p)} base={showBytes (base p)}"
